@@ -376,6 +376,85 @@ def campaign(run, pid, cases, entries, design_rule, extra_obligations=()):
     return obs, spec_bad, model_bad, nn, npar, reported
 
 
+def pool_wrappers_part(run, pid, methods=None):
+    """The same promise through the POOL, and the wrappers' transparency: every one of the 24 wrapper methods, with both values of
+    the error-policy flag, name lists (all rules in priority order / a permuted subset / with an unknown name) and two N-M splits, on
+    rule sets in which the always-failing probe rule pd and the stop-tag-setting rule ps sit at the top, in the middle or at the
+    bottom — several hundred calls in a row on (1,2) pools, so that an instance serves again and again.  The map a wrapper hands
+    back (also when the call reports an error) and whether it reports an error must be what the engine specification
+    (Engine/Spec.v spec_outcome) assigns to that entry point, with those arguments, on the installed rules."""
+    import poolfam
+    import c07
+    rng = random.Random(run.seed + 11)
+    methods = [m for m in poolfam.METHODS if methods is None or m in methods]
+    scs, sid = [], 1
+    orders = (["pd", "pa", "pb"], ["pa", "pd", "pb"], ["pa", "pb", "pd"], ["pa", "pb", "pc"], ["ps", "pa", "pb"], ["pa", "ps", "pb", "pc"], ["pa", "pb", "ps"],
+              ["pa", "pd", "ps", "pb"], ["pa", "ps", "pd", "pb"])
+    for order in orders:
+        for model in ((1, 3) if run.tier == "quick" else (1, 2, 3, 4)):
+            rules = poolfam.rules_v(1, names=order, kinds={"pd": "fail", "ps": "stop"})
+            sc = {"id": sid, "min": 1, "max": 2, "model": model, "rules": rules, "steps": []}
+            rid = sid * 1000
+            for meth in methods:
+                if meth == "ExecuteRulesWithSpecifiedEM" and "ps" in order:
+                    continue        # this wrapper injects two named objects only: the rule ps could not reach the request's stop tag
+                for b in (True, False):
+                    k = len(order)
+                    names = rng.choice([list(order), list(order), rng.sample(order, k - 1), list(reversed(order)), order[:1] + ["zz"] + order[1:]])
+                    n = rng.choice([1, 2]) if k > 2 else 1
+                    rid += 1
+                    st = poolfam.req_step(rid, meth, names, hold_at="", flag=True, b=b, n=n, m=len(names) - n if "Selected" in meth else k - n)
+                    st["layers"] = [list(order[:1]), list(order[1:])] if rng.random() < 0.5 else [list(order[:2]), ["zz"], list(order[2:])]
+                    sc["steps"].append(st)
+                    sc["steps"].append({"op": "wait", "id": rid})
+            scs.append(sc)
+            sid += 1
+    obs = poolfam.run_pool([poolfam.strip(s) for s in scs])
+    ob = {o["id"]: o for o in obs}
+    items, n_calls, n_err = [], 0, 0
+    extra = []
+    for sc in scs:
+        o = ob[sc["id"]]
+        if o.get("crash"):
+            extra.append((sc["id"], 0))
+            continue
+        steps = {st["id"]: st for st in sc["steps"] if st["op"] == "req"}
+        for r in o["reqs"]:
+            if not r.get("done"):
+                extra.append((sc["id"], r["id"] % 1000))
+                continue
+            n_calls += 1
+            n_err += 1 if r["err"] else 0
+            st = steps[r["id"]]
+            got = poolfam.coq_list(["(%s, %s)" % (poolfam.coq_str(n), poolfam.coq_z(v // 1000000)) for n, v in sorted(r["result"].items()) if v >= 0])
+            items.append("(%s, %s, (%s, %s, %s), %s, %s, (%s, %s))" % (poolfam.coq_nat(sc["id"]), poolfam.coq_nat(r["id"] % 1000), poolfam.coq_nat(sc["max"]), poolfam.coq_nat(sc["model"]), poolfam.coq_bool(st["b"] if st["method"] in HAS_B else True),
+                                                                 poolfam.coq_prules(sc["rules"]), c07.coq_shape(st, sc["model"]), got, poolfam.coq_bool(r["err"])))
+    defs = ("Definition erule_s (r : rule) : erule := mkER (rname r) (rsal r) (probe_fails (rname r)) (negb (probe_fails (rname r))) (String.eqb (rname r) \"ps\") (Some (rbody r)).\n"
+            "Definition spec_s (mx md : nat) (b : bool) (rs : list rule) (sh : call_shape) : outcome :=\n"
+            "  spec_outcome (sh_entry sh) (mkCfg (map erule_s (sorted (m_master (mgmt_init mx md rs idshuffle)))) b (sh_n sh) (sh_m sh) (sh_names sh) (sh_layers sh) false None).\n"
+            "Definition map_s (o : outcome) : list (string * Z) := match o_map o with Some m => flat_map (fun nv => match snd nv with Some v => [(fst nv, v)] | None => [] end) m | None => [] end.\n"
+            "Definition pcases := %s.\n"
+            "Definition PM := flat_map (fun c => match c with (sid, q, (mx, md, b), rs, sh, (got, err)) => let o := spec_s mx md b rs sh in "
+            "if (same_entries got (map_s o) && Bool.eqb err (o_err o))%%bool then [] else [(sid, q)] end) pcases.\n") % poolfam.coq_list(items, per_line=True)
+    mm = [tuple(t) for t in poolfam.evaluate(pid + "_pool", defs, ["PM"])["PM"]] + extra
+    run.log("pool part: %d wrapper calls (%d reporting an error), %d disagreement(s)" % (n_calls, n_err, len(mm)))
+    byid = {s["id"]: s for s in scs}
+    seen = set()
+    for sid, q in mm:
+        sc = byid[sid]
+        st = next((x for x in sc["steps"] if x["op"] == "req" and x["id"] % 1000 == q), None)
+        meth = st["method"] if st else "?"
+        if meth in seen:
+            continue
+        seen.add(meth)
+        r = next((x for x in ob[sid]["reqs"] if x["id"] % 1000 == q), None)
+        run.report({"kind": "pool-result", "entry": meth}, {"scenario": poolfam.strip(sc), "step": st, "request": r, "disagreement": "the result map / error flag handed back by the pool wrapper is not what the entry point yields, with these arguments, on the installed rules"},
+                   "%s: pool wrapper %s(b=%s, names=%s, n=%s, m=%s) on rules %s (pd fails, ps sets the stop tag), model %d: returned map %s (error reported: %s) is not what the execution model yields" % (
+                       pid, meth, st and st["b"], st and st["names"], st and st["n"], st and st["m"], [x["name"] for x in sc["rules"]], sc["model"], r and r.get("result"), r and r.get("err")))
+    return (not mm), {"pool_wrapper_calls": n_calls, "pool_wrapper_calls_reporting_an_error": n_err}
+
+
+
 def engine_check(run, pid, entries, make_cases, rule_text, assumptions, after=None):
     """Full check for one engine-family property."""
     build_harness()
